@@ -3,5 +3,5 @@
 # and prints "<seed> <check> rc=<n> :: first finding".  Used to fill seeded/*/meta.json and DESIGN.md section 9.
 tier=${1:-quick}
 cd /verif
-ls seeded | xargs -P 6 -I{} sh -c 'p=$(echo {} | cut -d- -f1); tools/seedrun.sh /verif/seeded/{}/patch.diff '"$tier"' $p 2>&1 | grep -v conda | sed "s#^#{} #"'
+ls seeded | xargs -P 6 -I{} sh -c 'p=$(echo {} | cut -d- -f1); [ -f /verif/seeded/{}/check ] && p=$(cat /verif/seeded/{}/check); tools/seedrun.sh /verif/seeded/{}/patch.diff '"$tier"' $p 2>&1 | grep -v conda | sed "s#^#{} #"'
 rm -rf /root/.cache/go-build-verif-scratch
